@@ -506,6 +506,8 @@ def finish(pid, tier, seed, spec, agg, t0, extra_cov=None):
     for kk, (k, case, n) in sorted(known_hit.items()):
         print('KNOWN-FINDING: property=%s %s (%s; %d occurrence(s) this run, e.g. case %s)' % (pid, k['what'], k['key'], n, case))
     nontriv = len(agg.sigs)
+    if spec.get('evals_counter'):
+        agg.evals = agg.counters.get(spec['evals_counter'], 0)
     cov = dict(evaluations=max(agg.evals, 0), distinct_nontrivial=nontriv, rule=spec['rule'],
                samples=agg.samples[:8] or ['(no sample emitted)'],
                counters=dict(sorted(agg.counters.items())),
